@@ -255,6 +255,7 @@ def cases(tier, seed):
     for kind in KINDS:
         out.append(dict(id='admin-%s' % kind, kind='admin', cose=kind, seed=seed * 149 + idx, reps=8 if thorough else 2))
     out.append(dict(id='adjacent', kind='adjacent', seed=seed, reps=120 if thorough else 3))
+    out.append(dict(id='typed-target', kind='typed-target', seed=seed, reps=12 if thorough else 2))
     out.append(dict(id='keys', kind='keys', seed=seed))
     return out
 
@@ -450,6 +451,55 @@ def run_case(case):
                             else:
                                 obs['multi_recipient_recovered'] += 1
                         note(problems, data + bytes([accept]), label)
+        elif kind == 'typed-target':
+            # the target is a block the agent itself builds from a typed layer (Bundle Age, Hop Count, Previous Node: the way the
+            # forwarder writes them, without an explicit type code): what leaves is still a well-formed block of that type whose
+            # data is ciphertext, and a receiver with the key gets the bundle
+            from vf.world.sim import Sim
+            from bp.util import BundleContainer
+            from bp.encoding import Bundle, PrimaryBlock, CanonicalBlock, Timestamp, BundleAgeBlock, HopCountBlock, PreviousNodeBlock
+            for rep in range(case['reps']):
+                for (tcode, make_layer) in ((7, lambda: BundleAgeBlock(age=1000 + rep)), (10, lambda: HopCountBlock(limit=30, count=rep)),
+                                            (6, lambda: PreviousNodeBlock(node='dtn://prev/'))):
+                    for cose in ('enc0-256', 'enc-kw'):
+                        sim = Sim(0, 'eager')
+                        src = sh.source_node(sim, cose, sec_type='bcb', target_types=(1, tcode),
+                                             content_iv=[bytes(rng.getrandbits(8) for _ in range(12)) for _ in range(2)])
+                        plain = plaintext_for(rng, rng.choice([5, 40]))
+                        real = Bundle(primary=PrimaryBlock(destination='dtn://dst-node/app', source='dtn://src-node/app', report_to='dtn:none',
+                                                           create_ts=Timestamp(dtntime=820540000000 + rep, seqno=rep), lifetime=3600000, crc_type=rng.choice([0, 2])),
+                                      blocks=[CanonicalBlock(block_num=4) / make_layer(), CanonicalBlock(type_code=1, block_num=1, btsd=plain)])
+                        src.send(BundleContainer(real))
+                        sim.settle(5000)
+                        outs = src.cl.datas()
+                        obs['typed_target_runs'] = obs.get('typed_target_runs', 0) + 1
+                        label = 'confidentiality over the payload and a type-%d block built from its typed layer (%s)' % (tcode, cose)
+                        problems = []
+                        if len(outs) != 1:
+                            problems.append(('wire', '%s: %d outputs' % (label, len(outs))))
+                            note(problems, b'typed-%d-%d' % (tcode, rep), label)
+                            continue
+                        data = outs[0]
+                        try:
+                            dec, probs = bpv7.decode(data)
+                            if probs:
+                                problems.append(('wire', '%s: the transmitted bundle is not well-formed: %s' % (label, probs[:2])))
+                            elif sorted(blk['type'] for blk in dec['blocks']) != sorted([1, 12, tcode]):
+                                problems.append(('wire', '%s: transmitted block types %s' % (label, [blk['type'] for blk in dec['blocks']])))
+                        except bpv7.DecodeError as derr:
+                            problems.append(('wire', '%s: the transmitted bundle does not decode: %s' % (label, derr)))
+                        if not problems:
+                            verdict, why = cb.verify_bundle(data, oracle_keys(cose))
+                            if verdict != 'ok':
+                                problems.append(('wire', '%s: does not decrypt independently: %s' % (label, why[:80])))
+                            dst, log, err, _le = receive(data, cose, 'all', True)
+                            delivered = dst.delivered()
+                            if err is not None or len(delivered) != 1 or delivered[0]['payload'] != plain:
+                                problems.append(('not-recovered', '%s: a receiver with the key did not recover the plaintext (deliveries %d, error %s)' % (
+                                    label, len(delivered), type(err).__name__ if err else None)))
+                            else:
+                                obs['plaintext_recovered'] += 1
+                        note(problems, data, label)
         elif kind == 'adjacent':
             # two confidentiality blocks next to each other in the block array, over different targets (two sources or two
             # policies each added one): each is processed; with the second one's ciphertext altered nothing is released
